@@ -100,6 +100,33 @@ CLAIMS = {
         "is a named exception (unsafe fn with a value-level contract).",
         ref="DESIGN.md §5 C04",
     ),
+    "C09": dict(
+        category="other",
+        technique="typestate/ordering rules on Drain's MIR (dominance, must-pass-through, unwind reachability), resolved-"
+        "callee shape rules for the index iterator protocol and bound translation, REQUIRES propagation (MOD1)",
+        text="Static decision of the drain protocol: single constructor, size cleared after validation and before the "
+        "Drain exists (DRN1 a-c,f); Drain::drop destroys the un-yielded part (both Droppers, built before either is "
+        "dropped) before restoring size, restores on every normal path (modulo N==0), nothing can unwind afterwards, the "
+        "back-fill loop lies on every path to the restore (DRN1 d,e, DROPPER1, BACKFILL1); next/next_back read exactly the "
+        "index produced by std's Range iterator and len/size_hint are that iterator's (DRAINIT1); no modulus/index by "
+        "capacity zero reachable from drain/Drain (MOD1); every RangeBounds form translated as documented (RANGE1). Not "
+        "decided: back-fill arithmetic, order preservation, termination (values).",
+        note="Trusted: std's Range<usize> iterator and RangeBounds impls. Which slots the un-yielded slices cover "
+        "(Drain::as_mut_slices bounds) is value-level and not decided.",
+        ref="DESIGN.md §5 C09",
+    ),
+    "C10": dict(
+        category="other",
+        technique="typestate rule 'size == 0 while a Drain exists' decided by dominance of the clearing store, who-may-"
+        "write summaries over Drain's methods, who-may-call of the move-out, impl table (no Clone/Copy)",
+        text="Static decision of every premise of the leak-safety argument: Drain is constructed only in over_range; there "
+        "size := 0 (after validation) dominates the pointer, the Drain and the return and is the only store; no Drain "
+        "method but drop writes size; the only move-out is reachable only through &mut Drain; Drain is not Clone/Copy; "
+        "plus the C04 obligations (ACC1, ACC2, INV1) under which a buffer of size 0 touches no slot. The implication "
+        "premises => property is a three-line argument in DESIGN.md, hence level other.",
+        note="Relies on C04's rules; the implication itself is not machine-checked.",
+        ref="DESIGN.md §5 C10",
+    ),
 }
 
 
